@@ -1,1 +1,2 @@
 import MimicProofs.Control
+import MimicProofs.Framing
